@@ -65,4 +65,7 @@ def unpack : List Fmt → Bytes → Option (List Int)
         | .b | .h | .i | .q => toSigned f.size v
         | _ => (v : Int)) :: rest)
 
+/-- `Flag.X in flags` for a flag whose value is `2^k` -/
+def hasBit (n k : Nat) : Bool := n / 2 ^ k % 2 = 1
+
 end Mimic.Py
